@@ -369,13 +369,28 @@ func specExtTypes(s *tls.ClientHelloSpec) string {
 }
 
 // c09One: the full per-(kind, seed, weights) judgement. connEvery: also build through a UConn.
+// the package's default weights as they are before any spec has been generated in this process
+var c09PristineDefault = tls.DefaultWeights
+
 func c09One(r *explore.Result, kind string, seedN int, w *tls.Weights, corner bool, fields map[string]bool, viaConn bool, what string) (shape string) {
 	seed := c09Seed(seedN)
+	var wBefore tls.Weights
+	if w != nil {
+		wBefore = *w
+	}
 	s1, err1 := tls.UTLSIdToSpec(c09ID(kind, seed, w))
 	s2, err2 := tls.UTLSIdToSpec(c09ID(kind, seed, w))
 	if err1 != nil || err2 != nil {
 		r.Violate("C09|generator-error", "%s: %v / %v", what, err1, err2)
 		return "error"
+	}
+	// the same (seed, weights) must give the same fingerprint whatever was generated before: the weights
+	// are an input, not a scratch area — neither the caller's struct nor the package default may change
+	if w != nil && *w != wBefore {
+		r.Violate("C09|weights-modified|caller", "%s: generating the spec changed the caller's Weights", what)
+	}
+	if tls.DefaultWeights != c09PristineDefault {
+		r.Violate("C09|weights-modified|default", "%s: DefaultWeights differs from its value at process start: a later spec from the same seed is no longer the same fingerprint", what)
 	}
 	d1, d2 := describeSpec(&s1), describeSpec(&s2)
 	if d1 != d2 {
